@@ -39,7 +39,7 @@ def _phase_and_fold():
 
 class RecordingLDA(ClassifierMixin, BaseEstimator):
     def __init__(self, tag_idx=None, order_frac=None, ridge=1e-2, mode="good", fold_tags=None, noise_seed=0,
-                 record=True, round_out=None, affine_out=None):
+                 record=True, round_out=None, affine_out=None, overfit_noise=1.5):
         self.tag_idx = tag_idx
         self.order_frac = order_frac
         self.ridge = ridge
@@ -49,6 +49,7 @@ class RecordingLDA(ClassifierMixin, BaseEstimator):
         self.record = record
         self.round_out = round_out  # decimals: a coarse output scale produces exact ties between PSMs
         self.affine_out = affine_out  # (a, b): the decision function is reported as a + b * margin (another offset / unit)
+        self.overfit_noise = overfit_noise  # how badly mode "overfit" generalises (1.5: much worse than the best feature)
 
     # ------------------------------------------------------------- helpers
     def _split(self, X):
@@ -135,7 +136,7 @@ class RecordingLDA(ClassifierMixin, BaseEstimator):
             # fits its training rows perfectly, generalises poorly (signal drowned in noise) but not at random:
             # held-out folds still accept a few targets, so calibration succeeds and brew must notice that the
             # cross-validated scores are worse than the best feature
-            noisy = out + 1.5 * self.noise_scale_ * _hash_noise(tags, self.noise_seed) * 1.7320508
+            noisy = out + float(self.overfit_noise) * self.noise_scale_ * _hash_noise(tags, self.noise_seed) * 1.7320508
             memo = self.memo_
             out = np.array([memo.get(int(t), float(v)) for t, v in zip(tags, noisy)])
         if self.round_out is not None:
